@@ -565,6 +565,26 @@ def case_view_history(ctx, r, B):
         lines.append(line)
         expects.append(('ok ' if raised is None else f'err {raised} ') + state_line(m))
         metas.append((site, ic))
+    # round 8: at the end of the history every object (base, held view, fresh views) must report ONE polynomial through every read
+    # accessor, and it must be the reference in the vartype the object reports
+    from harness.props import accessors as ACC
+    for o in ('m', 'hv', 'm.spin', 'm.binary'):
+        obj = R.ev(o)
+        bad, rd = ACC.disagreements(obj)
+        ctx.tick('read accessors compared at the end of a history')
+        exp = ref.in_view(obj.vartype.name)
+        if not bad:
+            got = GP(); got.add((), rd[0])
+            for v_, b_ in rd[1].items():
+                got.add((v_,), b_)
+            for k_, b_ in rd[2].items():
+                got.add(tuple(k_), b_)
+            if got.nz() != exp.nz():
+                bad = [('all accessors', f'report {got.nz()} but the model, in {obj.vartype.name}, is {exp.nz()}')]
+        if bad:
+            ctx.fail('property', f'{site_of[o]} read accessors', f'at the end of a history with views and in-place vartype changes; accessor={bad[0][0].split("(")[0].strip()}',
+                     f'{o}: {bad[0][0]}: {bad[0][1]}', repro=repro(ACC.repro_src(o)))
+            return
     if dtype == 'object':
         # the dict model is in the same *insertion order* as `_adj` (what `pyBQM.change_vartype` and `relabel_variables` iterate over)
         lines.append(f'lb {ref.vt} order'); expects.append('ok ' + raw_order(m)); metas.append(('pyBQM._adj insertion order', 'after a history'))
@@ -1591,6 +1611,214 @@ def case_from_dicts(ctx, r, B):
                 return
 
 
+# ------------------------------------------------------------------------------------------ the object graph of .spin / .binary (round 8)
+
+def view_depth(o):
+    """number of VartypeView layers between the object's `data` and the base data"""
+    from dimod.binary.vartypeview import VartypeView
+    d, k = o.data, 0
+    while isinstance(d, VartypeView):
+        d, k = d.data, k + 1
+    return k
+
+
+def case_view_graph(ctx, r, B):
+    """a pool of objects reached from ONE model through `.spin` / `.binary` of ANY object in the pool (views of views, the cached
+    `_spin` / `_binary`, views held across `change_vartype(inplace=True)` of their parent, of themselves, of a view in between),
+    writes through any of them, `other.update(view)`, `to_qubo` / `to_ising` of any of them.  After EVERY step EVERY object in
+    the pool must show the current model in the vartype it reports: all read accessors give the reference polynomial
+    substituted into that vartype, and `energies` is its value on every sample.
+    Model (`viewheap`): which object each call returns (identity), every object's `.vartype` and the nesting of its data."""
+    from harness.props import accessors as ACC
+    R = Recipe()
+    dtype = r.choice(['np.float64', 'object'])
+    vt0 = r.choice(['SPIN', 'BINARY'])
+    labels = r.sample(LABELS, r.randint(1, 3))
+    R.do(f'm = BQM({vt0!r}, dtype={dtype})')
+    Ps = GP()          # the model as a polynomial over SPIN values (the invariant all objects must show)
+
+    def in_vt(vt):
+        return Ps.copy() if vt == 'SPIN' else Ps.substitute({v: TO_BINARY for v in labels})
+
+    def write(o_expr, call, edit):
+        """a write through object `o_expr`: edit the reference in that object's vartype, substitute back"""
+        nonlocal Ps
+        vt = R.ev(o_expr).vartype.name
+        Pv = in_vt(vt)
+        edit(Pv)
+        R.do(f'{o_expr}.{call}')
+        Ps = Pv if vt == 'SPIN' else Pv.substitute({v: TO_SPIN for v in labels})
+
+    for v in labels:
+        write('m', f'add_linear({v!r}, {fl(q8(r))})', lambda P, v=v, b=None: None)
+    # (the linear biases just written: re-read them into the reference — the model is still fresh, so this is construction)
+    Ps = GP.of_model(R['m']) if vt0 == 'SPIN' else GP.of_model(R['m']).substitute({v: TO_SPIN for v in labels})
+    if len(labels) >= 2:
+        u, v = r.sample(labels, 2)
+        b = q8(r)
+        write('m', f'add_quadratic({u!r}, {v!r}, {fl(b)})', lambda P: P.add((u, v), b))
+    pool = ['m']            # python expressions naming the objects; index = object id of the model
+    ops = []
+    nops = r.randint(3, 12)
+    site = 'BQM' + ('[object]' if dtype == 'object' else '') + ' .spin/.binary object graph'
+
+    def check_all(what):
+        for i, name in enumerate(pool):
+            o = R.ev(name)
+            vt = o.vartype.name
+            exp = in_vt(vt)
+            ctx.case((site, tuple(R.lines[4:]), name), nontrivial=view_depth(o) > 0 or len(pool) > 1)
+            depth = view_depth(o)
+            ic = (f'object at nesting depth {min(depth, 3)}{"+" if depth > 3 else ""} read after {what}')
+            repro_tail = ACC.repro_src(name)
+            try:
+                bad, ref = ACC.disagreements(o)
+            except Exception as e:  # noqa
+                bad, ref = [('reading', f'{type(e).__name__}: {e}')], None
+            if bad:
+                ctx.fail('property', site, ic + f'; accessor={bad[0][0].split("(")[0].strip()}', f'{name}: {bad[0][0]}: {bad[0][1]}',
+                         repro=R.script(repro_tail))
+                return False
+            off, lin, quad = ref
+            got = GP()
+            got.add((), off)
+            for v_, b_ in lin.items():
+                got.add((v_,), b_)
+            for k_, b_ in quad.items():
+                got.add(tuple(k_), b_)
+            if got.nz() != exp.nz():
+                ctx.fail('property', site, ic, f'{name} (vartype {vt}) shows {got.nz()} but the model, in {vt}, is {exp.nz()}',
+                         repro=R.script(repro_tail + f'assert nonzero(ref) == nonzero(({exp.get(())!r}, '
+                                        f'{ {v_: exp.get((v_,)) for v_ in labels}!r}, '
+                                        f'{ {ACC.qkey(*k_): c_ for k_, c_ in exp.t.items() if len(k_) == 2}!r})), ref\n'))
+                return False
+            for x in all_samples(labels, vt):
+                try:
+                    e = F(o.energy(x))
+                except Exception as ex:  # noqa
+                    e = f'{type(ex).__name__}: {ex}'
+                if e != exp.eval(x):
+                    ctx.fail('property', site, ic + '; energies', f'{name}.energy({x}) = {e} but the model, in {vt}, gives {exp.eval(x)}',
+                             repro=R.script(f'assert F({name}.energy({x!r})) == Fraction({exp.eval(x)!r}), {name}.energy({x!r})\n'))
+                    return False
+        return True
+
+    def model_line(what):
+        ret = ','.join(map(str, rets)) or '-'
+        objs = [R.ev(nm) for nm in pool]
+        expect = (f'ret={ret} vts={",".join(o.vartype.name[0] for o in objs)} depth={",".join(str(view_depth(o)) for o in objs)}')
+        B.add(f'viewheap {vt0[0]} {";".join(ops) or "-"}', expect, site, f'identity / vartype / nesting after {what}',
+              f'{len(ops)} calls on a pool of {len(pool)} objects', detail=dict(model=R.lines[4:]), driver='exprreadsdriver')
+
+    rets = []
+
+    def do_view(i, which):
+        """`pool[i].spin` / `.binary`, made explicit (also before the calls that take a view internally: `to_qubo` = `.binary`,
+        `to_ising` = `.spin`, `other.update(o)` = `o.<other's vartype>`), so that the model sees every call on the graph"""
+        name = pool[i]
+        tmp = f'o{len(pool)}'
+        R.do(f'{tmp} = {name}.{which}')
+        got = R.ev(tmp)
+        j = next((k for k, nm in enumerate(pool) if R.ev(nm) is got), None)
+        fresh = j is None
+        if fresh:
+            pool.append(tmp)
+            j = len(pool) - 1
+        ops.append(f'{which[0]}{i}')
+        rets.append(j)
+        ctx.tick(f'{site}: .{which} -> ' + ('itself' if j == i else 'new object' if fresh else 'cached object'))
+        if got.vartype.name != which.upper():
+            ctx.fail('property', site, f'.{which} of an object at nesting depth {min(view_depth(R.ev(name)), 3)}',
+                     f'{name}.{which}.vartype is {got.vartype.name}', repro=R.script(f'assert {tmp}.vartype.name == {which.upper()!r}\n'))
+            return False
+        return True
+
+    if not check_all('construction'):
+        return
+    for step in range(nops):
+        i = r.randrange(len(pool)) if r.random() < .4 else len(pool) - 1
+        name = pool[i]
+        kind = r.choice(['view', 'view', 'view', 'cv', 'cv', 'write', 'write', 'update', 'dicts'])
+        if kind == 'view':
+            which = r.choice(['spin', 'binary'])
+            if not do_view(i, which):
+                return
+            what = f'.{which}'
+        elif kind == 'cv':
+            vt = r.choice(['SPIN', 'BINARY'])
+            R.do(f'{name}.change_vartype({vt!r}, inplace=True)')
+            ops.append(f'c{vt[0]}{i}')
+            rets.append(i)
+            what = 'change_vartype in place ' + ('of the base' if i == 0 else 'of a view')
+            ctx.tick(f'{site}: {what}')
+        elif kind == 'write':
+            v = r.choice(labels)
+            b = q8(r)
+            w = r.choice(['add_linear', 'set_linear', 'offset', 'add_quadratic'] if len(labels) >= 2 else ['add_linear', 'set_linear', 'offset'])
+            if w == 'add_linear':
+                write(name, f'add_linear({v!r}, {fl(b)})', lambda P: P.add((v,), b))
+            elif w == 'set_linear':
+                write(name, f'set_linear({v!r}, {fl(b)})', lambda P: P.set((v,), b))
+            elif w == 'offset':
+                nonlocal_vt = R.ev(name).vartype.name
+                Pv = in_vt(nonlocal_vt)
+                Pv.set((), b)
+                R.do(f'{name}.offset = {fl(b)}')
+                Ps = Pv if nonlocal_vt == 'SPIN' else Pv.substitute({x_: TO_SPIN for x_ in labels})
+            else:
+                u = r.choice([l for l in labels if l != v])
+                write(name, f'add_quadratic({u!r}, {v!r}, {fl(b)})', lambda P: P.add((u, v), b))
+            what = f'a write ({w}) through an object at nesting depth {min(view_depth(R.ev(name)), 3)}'
+            ctx.tick(f'{site}: write through depth {min(view_depth(R.ev(name)), 3)}')
+            if any(c.denominator > 2 ** 30 or abs(c.numerator) > 2 ** 30 for c in Ps.t.values()):
+                return
+        elif kind == 'update':
+            vt = r.choice(['SPIN', 'BINARY'])
+            if not do_view(i, vt.lower()):
+                return
+            R.do(f'other = BQM({vt!r}, dtype={dtype})')
+            R.do(f'other.update({name})')
+            ctx.tick(f'{site}: other.update(object at depth {min(view_depth(R.ev(name)), 3)})')
+            ctx.case((site, 'update', tuple(R.lines[4:])), nontrivial=True)
+            got = GP.of_model(R['other'])
+            if got.nz() != in_vt(vt).nz():
+                ctx.fail('property', 'BQM.update', f'other.update(view at nesting depth {min(view_depth(R.ev(name)), 3)}); vartypes '
+                         + ('equal' if vt == R.ev(name).vartype.name else 'differ'),
+                         f'a fresh {vt} model updated with {name} holds {got.nz()} but the model, in {vt}, is {in_vt(vt).nz()}',
+                         repro=R.script(f'exp = {in_vt(vt).nz()!r}\ngot = dict()\n'
+                                        'got[()] = F(other.offset)\n'
+                                        'for v_, b_ in other.iter_linear(): got[(v_,)] = F(b_)\n'
+                                        'for u_, v_, b_ in other.iter_quadratic(): got[tuple(sorted((u_, v_), key=repr))] = F(b_)\n'
+                                        'assert {k: v for k, v in got.items() if v} == exp, (got, exp)\n'))
+                return
+            continue
+        else:
+            if not (do_view(i, 'binary') and do_view(i, 'spin')):
+                return
+            o = R.ev(name)
+            ctx.tick(f'{site}: to_qubo / to_ising of an object at depth {min(view_depth(o), 3)}')
+            ctx.case((site, 'dicts', tuple(R.lines[4:]), name), nontrivial=True)
+            Q, qoff = o.to_qubo()
+            h, J, ioff = o.to_ising()
+            Pb, Psn = in_vt('BINARY'), in_vt('SPIN')
+            for x in all_samples(labels, 'BINARY'):
+                e = F(qoff) + sum(F(b_) * x[a_] * x[c_] for (a_, c_), b_ in Q.items())
+                if e != Pb.eval(x):
+                    ctx.fail('property', site, f'to_qubo of an object at nesting depth {min(view_depth(o), 3)}', f'{name}.to_qubo() at {x}: {e}, the model gives {Pb.eval(x)}',
+                             repro=R.script(f'Q, off = {name}.to_qubo()\nx = {x!r}\nassert F(off) + sum(F(b) * x[u] * x[v] for (u, v), b in Q.items()) == Fraction({Pb.eval(x)!r})\n'))
+                    return
+            for x in all_samples(labels, 'SPIN'):
+                e = F(ioff) + sum(F(b_) * x[a_] for a_, b_ in h.items()) + sum(F(b_) * x[a_] * x[c_] for (a_, c_), b_ in J.items())
+                if e != Psn.eval(x):
+                    ctx.fail('property', site, f'to_ising of an object at nesting depth {min(view_depth(o), 3)}', f'{name}.to_ising() at {x}: {e}, the model gives {Psn.eval(x)}',
+                             repro=R.script(f'h, J, off = {name}.to_ising()\nx = {x!r}\nassert F(off) + sum(F(b) * x[u] for u, b in h.items()) + sum(F(b) * x[u] * x[v] for (u, v), b in J.items()) == Fraction({Psn.eval(x)!r})\n'))
+                    return
+            continue
+        if not check_all(what):
+            return
+        model_line(what)
+
+
 def run(ctx):
     r = ctx.rng
     B = Batch(ctx)
@@ -1602,7 +1830,7 @@ def run(ctx):
                 'non-trivial = the model has variables / the step went through a view of the other vartype or changed the state')
     for i in range(n):
         kind = r.choice(['bqm', 'bqmhist', 'bqmhist', 'hist', 'hist', 'hist', 'qm', 'cqm', 'cqm', 'poly', 'polyh', 'dicts', 'ss', 'ss', 'fromdicts',
-                         'polyhist', 'polyhist', 'twice', 'sstwice'])
+                         'polyhist', 'polyhist', 'twice', 'sstwice', 'graph', 'graph'])
         ctx.tick('kind:' + kind)
         if kind == 'bqm':
             case_bqm_convert(ctx, r, B)
@@ -1620,6 +1848,8 @@ def run(ctx):
             case_poly_history(ctx, r, B)
         elif kind == 'twice':
             case_convert_twice(ctx, r, B)
+        elif kind == 'graph':
+            case_view_graph(ctx, r, B)
         elif kind == 'sstwice':
             case_sampleset_twice(ctx, r, B)
         elif kind == 'polyh':
